@@ -490,6 +490,34 @@ def part_c(ctx, c, rng, i):
         if d:
             ctx.violation('combine', case, {'what': 'csscombine left global state changed', 'changed': d})
             return
+        if i % 2 == 0:
+            # an application that has set up its own serializer preferences gets the same combined sheet, and keeps its preferences
+            ctx.count('oracle.combine-under-app-prefs')
+            which = (i // 2) % 4
+            try:
+                pr = c.ser.prefs
+                if which == 0:
+                    pr.useMinified()
+                elif which == 1:
+                    pr.keepAllProperties, pr.keepComments, pr.indent = False, False, '\t'
+                elif which == 2:
+                    pr.validOnly, pr.keepUnknownAtRules, pr.lineSeparator = True, False, '\r\n'
+                else:
+                    pr.resolveVariables, pr.omitLastSemicolon, pr.importHrefFormat = False, False, 'uri'
+                s2 = core.Sentinels(c)
+                out2 = c.script.csscombine(path=top_path, minify=minify, targetencoding=target_enc)
+                d2 = s2.diff()
+            except Exception as e:
+                c.ser.prefs.useDefaults()
+                ctx.violation('combine.exception', dict(case, app_prefs=which), {'tb': core.short_tb(e)}, site=core.raise_site(e))
+                return
+            c.ser.prefs.useDefaults()
+            if d2:
+                ctx.violation('combine', dict(case, app_prefs=which), {'what': "csscombine changed the application's serializer preferences", 'changed': d2})
+                return
+            if out2 != out:
+                ctx.violation('combine', dict(case, app_prefs=which), {'what': "the combined sheet depends on the application's serializer preferences", 'default': out.decode('utf-8', 'replace')[:300], 'under_app_prefs': out2.decode('utf-8', 'replace')[:300]})
+                return
         result = c.CSSParser(fetcher=fetch_none).parseString(out, href=top_url)
         entries, kept = read_result(c, result, top_url)
         full = tree.expand(top_url, (), ())
